@@ -31,8 +31,8 @@ const PropInfo g_props[] = {
     {"C13", "api", "exploration", 25000, 600000, 90, 1800, "as C02 with cif_version=1 output and CIF 1.1 re-parse; distinct = distinct (op kind, result code, pre-state class) triples plus distinct (writer outcome, refusal cause set) pairs"},
     {"C14", "walk", "exploration", 40000, 1000000, 90, 1800, "a case is one seeded CIF plus one handler program (response table per callback kind, optional re-entrant queries); distinct = distinct (callback kind, response, depth class) triples plus distinct CIF shape classes"},
     {"C15", "doc", "exploration", 80000, 2000000, 90, 1800, "a case is one document plus one handler program parsed in storing and syntax-only mode; distinct = distinct (callback kind, response, mode) triples"},
-    {"C16", "mix", "exploration", 8000, 400000, 90, 1800, "a case is one run of any engine's workload with semantic oracles off and the sanitizer / leak / locale / rounding monitors on; distinct = distinct (engine, op kind, result code) triples"},
-    {"C17", "mix", "fault_enumeration", 3000, 150000, 90, 1800, "a case is one (API call in a seeded history, allocator, failure index k) step; for each call k runs 1,2,... until the fault no longer fires (beyond a dense prefix - 24 in the quick tier, 200 in the thorough tier - k advances in strides that grow with k); distinct = distinct (API function, allocator, k, result code) tuples"},
+    {"C16", "mix", "exploration", 16000, 800000, 90, 1800, "a case is one run of any engine's workload with semantic oracles off and the sanitizer / leak / locale / rounding monitors on; distinct = distinct (engine, op kind, result code) triples"},
+    {"C17", "mix", "fault_enumeration", 2500, 150000, 90, 1800, "a case is one (API call in a seeded history, allocator, failure index k) step; for each call k runs 1,2,... until the fault no longer fires (beyond a dense prefix - 24 in the quick tier, 200 in the thorough tier - k advances in strides that grow with k); distinct = distinct (API function, allocator, k, result code) tuples"},
     {"C19", "value", "exploration", 200000, 5000000, 90, 1800, "a case is one seeded history of value/list/table/packet operations mirrored in the value model; distinct = distinct (op kind, result code, operand kind class) triples"},
     {NULL, NULL, NULL, 0, 0, 0, 0, NULL}
 };
